@@ -50,6 +50,11 @@ struct Inner {
     credit: [Option<usize>; 3],
     active: bool,
     panicked: Option<String>,
+    /// the thread playing each role, learnt at its first `recv` point.  Other nodes of the process
+    /// (the forge that builds the universes, a node that is shutting down) run the same code under
+    /// the same thread names: a late `idle` report of one of THEIR threads must not be taken for the
+    /// role's (it made a parked role look idle: "no stable state" / replay divergences under load)
+    tid: [Option<std::thread::ThreadId>; 3],
 }
 
 pub struct Controller {
@@ -114,7 +119,7 @@ impl Controller {
     pub fn install() -> Arc<Controller> {
         install_panic_hook();
         let c = Arc::new(Controller {
-            m: Mutex::new(Inner { st: [St::Idle, St::Idle, St::Idle], grant: [false; 3], q: [0; 3], credit: [None; 3], active: true, panicked: None }),
+            m: Mutex::new(Inner { st: [St::Idle, St::Idle, St::Idle], grant: [false; 3], q: [0; 3], credit: [None; 3], active: true, panicked: None, tid: [None; 3] }),
             cv: Condvar::new(),
         });
         *CURRENT.lock().unwrap() = Some(Arc::clone(&c));
@@ -138,6 +143,14 @@ impl Controller {
         let Some(r) = role_of(site) else { return };
         let mut g = self.m.lock().unwrap();
         if !g.active {
+            return;
+        }
+        let me = std::thread::current().id();
+        if g.tid[r].is_none() && site.ends_with(":recv") {
+            g.tid[r] = Some(me);
+        }
+        if g.tid[r] != Some(me) {
+            // not a thread of the node under exploration
             return;
         }
         if let Some(t) = g.credit[r].take() {
